@@ -39,7 +39,8 @@ RULE = ("random path expressions (depth <= 4 quick / <= 6 thorough; iri, ^, /, |
         "literals, literal subjects, self-loops, 2- and 3-cycles), four bindings of the ends per case (given terms may be "
         "falsy or absent from the graph), driven through Graph.triples / subjects / objects / subject_objects / "
         "__contains__, Dataset (default_union on / off, named graph), ReadOnlyGraphAggregate over a split of the graph, "
-        "and SPARQL SELECT with constants or VALUES; the thorough tier first sweeps ALL 2^18 graphs over 3 nodes x 2 "
+        "and SPARQL SELECT with constants or VALUES, also over a Dataset (union, default graph, GRAPH <g>); one case in twelve "
+        "has an EMPTY active graph (fresh, emptied after adds, empty default graph, empty registered named graph); the thorough tier first sweeps ALL 2^18 graphs over 3 nodes x 2 "
         "predicates (blocks of 128) against 24 fixed path shapes with the oracle (one shape per graph also against the "
         "model).  non-trivial = the path has an operator and some binding with a given end has a non-empty answer; "
         "distinct = distinct (triples, path, ends)")
@@ -58,10 +59,12 @@ FALSY = [4, 5, 6, 13]
 NO_SPARQL_TERM = {7}          # a blank node in a query is a variable
 GNAME = URIRef(E + "g1")
 
-ROUTES = ["triples", "so", "ds_union", "ds_default", "ds_named", "agg", "sparql_const", "sparql_values", "sparql_tree"]
+ROUTES = ["triples", "so", "ds_union", "ds_default", "ds_named", "agg", "sparql_const", "sparql_values", "sparql_tree",
+          "sparql_ds_union", "sparql_ds_default", "sparql_ds_graph"]
 FULL, DEFAULT, NAMED, AGG = 0, 1, 2, 3
 ROUTE_GRAPH = {"triples": FULL, "so": FULL, "ds_union": FULL, "ds_default": DEFAULT, "ds_named": NAMED, "agg": AGG,
-               "sparql_const": FULL, "sparql_values": FULL, "sparql_tree": FULL}
+               "sparql_const": FULL, "sparql_values": FULL, "sparql_tree": FULL,
+               "sparql_ds_union": FULL, "sparql_ds_default": DEFAULT, "sparql_ds_graph": NAMED}
 
 
 # ------------------------------------------------------------------ paths
@@ -525,9 +528,43 @@ def gen_exhaustive(rng, block):
     return {"ex": block, "style": block % 2}
 
 
+def gen_empty_view(rng):
+    """an EMPTY active graph somewhere: a fresh graph, a graph emptied again, a dataset whose default graph is empty,
+    an empty registered named graph — with given ends, where the zero-length matches of `?`/`*` are the whole answer"""
+    preds = rng.sample(list(PRED), 2)
+    kind = rng.choice(["all", "all", "default", "named"])
+    if kind == "all":
+        T = []
+    else:
+        nodes = rng.sample(list(NODE), 4)
+        part = 1 if kind == "default" else 0      # every triple in the *other* graph
+        T = sorted({(rng.choice(nodes), rng.choice(preds), rng.choice(nodes)) for _ in range(rng.randint(1, 5))})
+        T = [[s, p, o, part] for s, p, o in T]
+    ghost = []
+    if rng.random() < 0.5:
+        ghost = [[rng.choice(list(NODE)), rng.choice(preds), rng.choice(list(NODE))] for _ in range(rng.randint(1, 3))]
+    r = rng.random()
+    if r < 0.45:
+        path = ["m", rng.choice("?*"), gen_path(rng, rng.choice([1, 1, 2]), preds)]
+    elif r < 0.8:
+        path = gen_nullable_seq(rng, preds)
+    elif r < 0.9:
+        path = ["a", [["m", rng.choice("?*"), ["i", preds[0]]], ["v", ["m", "*", ["i", preds[1]]]]]]
+    else:
+        path = ["m", "+", gen_path(rng, 2, preds)]
+    s, o = rng.choice(list(NODE)), rng.choice(list(NODE))
+    if rng.random() < 0.3:
+        o = s
+    return {"triples": T, "ghost": ghost, "path": path, "ends": [[s, None], [None, o], [s, o], [None, None]],
+            "routes": ["triples", "so", "agg", "ds_default", "ds_named", "sparql_const", "sparql_tree", "sparql_ds_union",
+                       "sparql_ds_default", "sparql_ds_graph"], "style": rng.randint(0, 1)}
+
+
 def gen_case(rng, tier, i):
     if tier == "thorough" and i < EX_BLOCKS:
         return gen_exhaustive(rng, i)
+    if i % 12 == 5:
+        return gen_empty_view(rng)
     nodes, preds, T = gen_graph(rng)
     dmax = 4 if tier == "quick" else 6
     used = {x for t in T for x in (t[0], t[2])}
@@ -557,6 +594,8 @@ def gen_case(rng, tier, i):
         routes += ["ds_union", "ds_default", "ds_named"]
     if i % 2 == 0:
         routes += ["sparql_const", "sparql_values", "sparql_tree"]
+        if "ds_union" in routes:
+            routes += ["sparql_ds_union", "sparql_ds_default", "sparql_ds_graph"]
     return {"triples": T, "path": path, "ends": ends, "routes": routes, "style": rng.randint(0, 1)}
 
 
@@ -632,11 +671,15 @@ def _run_route(route, env, path_ast, s, o):
         return back((a, b) for a, _p, b in env["agg"].triples((S, P, O)))
     txt = sparql_text(path_ast, env["style"])
     g = env["g"]
-    if route == "sparql_const":
-        q = "SELECT %s WHERE { %s %s %s }" % (
-            " ".join(v for v, x in (("?s", s), ("?o", o)) if x is None) or "*",
-            "?s" if s is None else _n3(s), txt, "?o" if o is None else _n3(o))
-        res = g.query(q)
+    if route in ("sparql_const", "sparql_ds_union", "sparql_ds_default", "sparql_ds_graph"):
+        pat = "%s %s %s" % ("?s" if s is None else _n3(s), txt, "?o" if o is None else _n3(o))
+        if route == "sparql_ds_graph":
+            # the named graph is registered in the dataset even when it holds no triple
+            pat = "GRAPH <%s> { %s }" % (GNAME, pat)
+        q = "SELECT %s WHERE { %s }" % (" ".join(v for v, x in (("?s", s), ("?o", o)) if x is None) or "*", pat)
+        target = {"sparql_const": g, "sparql_ds_union": env.get("ds_u"), "sparql_ds_default": env.get("ds_d"),
+                  "sparql_ds_graph": env.get("ds_d") if env["style"] else env.get("ds_u")}[route]
+        res = target.query(q)
         if s is not None and o is not None:
             # no variable left: one empty solution per match (Result.__iter__ skips empty solutions, so count them)
             return [(s, o)] * len(res.bindings)
@@ -658,27 +701,35 @@ def _run_route(route, env, path_ast, s, o):
     raise ValueError(route)
 
 
+def _fill(graph, triples, ghost):
+    """add the triples; `ghost` triples are added first and removed again (a graph that was emptied / shrunk)"""
+    keep = set(triples)
+    for s, p, o in ghost:
+        graph.add((TERM[s], TERM[p], TERM[o]))
+    for s, p, o in triples:
+        graph.add((TERM[s], TERM[p], TERM[o]))
+    for t in ghost:
+        if tuple(t) not in keep:
+            graph.remove((TERM[t[0]], TERM[t[1]], TERM[t[2]]))
+
+
 def _build_env(case, parts):
     env = {"style": case.get("style", 0)}
+    ghost = [tuple(t) for t in case.get("ghost", [])]
     g = Graph()
-    for s, p, o in parts[FULL]:
-        g.add((TERM[s], TERM[p], TERM[o]))
+    _fill(g, parts[FULL], ghost)
     env["g"] = g
-    if any(r.startswith("ds_") for r in case["routes"]):
+    if any(r.startswith("ds_") or r.startswith("sparql_ds") for r in case["routes"]):
         for key, union in (("ds_u", True), ("ds_d", False)):
             ds = Dataset(default_union=union)
-            for s, p, o in parts[DEFAULT]:
-                ds.add((TERM[s], TERM[p], TERM[o]))
+            _fill(ds.default_context if hasattr(ds, "default_context") else ds, parts[DEFAULT], ghost)
             ng = ds.graph(GNAME)
-            for s, p, o in parts[NAMED]:
-                ng.add((TERM[s], TERM[p], TERM[o]))
+            _fill(ng, parts[NAMED], ghost)
             env[key] = ds
     if "agg" in case["routes"]:
         g0, g1 = Graph(), Graph()
-        for s, p, o in parts[DEFAULT]:
-            g0.add((TERM[s], TERM[p], TERM[o]))
-        for s, p, o in parts[NAMED]:
-            g1.add((TERM[s], TERM[p], TERM[o]))
+        _fill(g0, parts[DEFAULT], ghost)
+        _fill(g1, parts[NAMED], ghost)
         env["agg"] = ReadOnlyGraphAggregate([g0, g1])
     return env
 
@@ -771,6 +822,11 @@ def run_impl(case):
         stats["op_" + k] = v
     used = {x for t in parts[FULL] for x in (t[0], t[2])}
     stats["self_loop"] = int(any(t[0] == t[2] for t in parts[FULL]))
+    for name, part in (("full", FULL), ("default", DEFAULT), ("named", NAMED)):
+        if not parts[part]:
+            stats["empty_" + name + "_graph"] = 1
+    if case.get("ghost"):
+        stats["emptied_after_adds"] = 1
     try:
         env = _build_env(case, parts)
         env["path"] = to_rdflib(ast, env["style"])
@@ -948,6 +1004,8 @@ def shrink(case):
     if len(case["ends"]) > 1:
         for e in case["ends"]:
             yield {**case, "ends": [e]}
+    if case.get("ghost"):
+        yield {**case, "ghost": []}
     T = case["triples"]
     for i in range(len(T)):
         yield {**case, "triples": T[:i] + T[i + 1:]}
